@@ -35,7 +35,7 @@ STATE_MEASURE = "(message type, encoding per hop, frame, scale, cov-frame class,
 PROBES = [
     "hop_compared", "kvn_xml_compared", "redump_compared", "config_default_used", "builtin_default_used", "creation_date_from_virtual_clock",
     "cov_in_local_frame", "cov_in_other_frame", "man_qsw", "man_tnw", "man_inertial", "man_continuous", "single_point_oem", "single_cov_oem", "multi_ephem_oem",
-    "omm_redumped", "tdm_two_paths", "user_defined_fields", "absent_name", "stored_example_message", "body_centred_frame",
+    "omm_redumped", "tdm_two_paths", "user_defined_fields", "absent_name", "stored_example_message", "body_centred_frame", "reader_read_another_message_first",
 ]
 REAL_VS_STUB = "real: beyond.io.ccsds writers and readers (lxml), StateVector/Orbit/Ephem/Cov/maneuvers/MeasureSet, Tle; stub: the file objects handed to dump()/load() (simulated disk), the datetime class read by Date.now (virtual wall clock); model: canonical description of the object compared at the written precision"
 ASSUMPTIONS = [
@@ -165,7 +165,10 @@ def gen_plan(rng, tier, i):
     hops = []
     for _ in range(rng.choice([1, 1, 2, 2, 3])):
         hops.append({"enc": rng.choice(ENC), "clock": [rng.randint(2000, 2035), rng.randint(1, 12), rng.randint(1, 28), rng.randint(0, 23), rng.randint(0, 59), rng.randint(0, 59), rng.randrange(1000000)], "both": rng.random() < 0.4})
-    return {"knobs": {"spec": spec, "real_eop": rng.random() < 0.3}, "ops": hops}
+    decoy = None
+    if kind in ("opm", "oem", "tdm") and rng.random() < 0.4:
+        decoy = rng.choice([sc for sc in ["UTC", "TAI", "TT", "GPS"] if sc != spec["scale"]])
+    return {"knobs": {"spec": spec, "real_eop": rng.random() < 0.3, "decoy_scale": decoy}, "ops": hops}
 
 
 # --------------------------------------------------------------------- world
@@ -501,6 +504,8 @@ class World:
             load_real_eop(self.disk)
         self.n_nodes = 0
         self.all_nodes = []
+        self.decoy = None
+        self.decoyed = set()
 
     def process(self, cfg_fmt=None, clock=None):
         """A new OS process: fresh registries, its own configuration and wall clock."""
@@ -551,11 +556,23 @@ class World:
 
     def read(self, node, path):
         ccsds = node.mod("beyond.io.ccsds")
+        if getattr(self, "decoy", None) and path != self.decoy and node.name not in self.decoyed:
+            self.decoyed.add(node.name)
+            try:
+                ccsds.load(io.StringIO(self.disk.read(self.decoy)))
+                self.ctx.fault("msg_other_message_read_first")
+            except Exception:  # noqa
+                pass
         fp = io.StringIO(self.disk.read(path))
         try:
             return ccsds.load(fp), None
         except Exception as e:  # noqa
             return None, e
+
+
+def rng_free_choice(plan):
+    """Encoding of the decoy message: derived from the plan, no randomness at run time."""
+    return enc_of(plan["ops"][0]["enc"])
 
 
 def enc_of(enc):
@@ -616,6 +633,15 @@ def _run_plan(plan, ctx, w):
             obj = build(node, spec, ctx)
             original = describe(obj, kind)
     _probe_features(ctx, spec)
+    decoy_scale = plan["knobs"].get("decoy_scale")
+    if decoy_scale and kind in ("opm", "oem", "tdm"):
+        # the same clock readings under another time-scale label, written first: every reader of this run reads it before the real message
+        with node:
+            dobj = build(node, dict(spec, scale=decoy_scale), ctx)
+            _, dexc = w.write(node, dobj, "arg:" + rng_free_choice(plan), "/msg/decoy")
+        if dexc is None:
+            w.decoy = "/msg/decoy"
+            ctx.probe("reader_read_another_message_first")
     current_desc = original
     sig = [kind]
     for h, hop in enumerate(hops):
@@ -790,6 +816,8 @@ def simplify(plan):
     kn = plan["knobs"]
     if kn.get("real_eop"):
         yield dict(plan, knobs=dict(kn, real_eop=False))
+    if kn.get("decoy_scale"):
+        yield dict(plan, knobs=dict(kn, decoy_scale=None))
     for key, val in (("cov", None), ("user", None), ("mans", []), ("form", "cartesian"), ("type", "sv")):
         if spec.get(key) and spec.get(key) != val:
             yield dict(plan, knobs=dict(kn, spec=dict(spec, **{key: val})))
